@@ -191,6 +191,19 @@ def prove_abs_le(res, tol, assumptions=None, label="", timeout_ms=20000, exact_f
             return Outcome("cex", env=m, how="exact")
         return Outcome("inconclusive", how="exact", detail="unknown/timeout")
     # rational residual: |n| <= tol |d| and d != 0
+    box = _box_for(n.vars() | d.vars())
+    if box is not None and tol > 0:
+        try:
+            sd = d.eval(env)
+        except Exception:
+            sd = 0
+        if sd != 0:
+            dd = d if sd > 0 else -d
+            nn = n if sd > 0 else -n
+            goals = [Cond(dd, "<=", "denominator sign"), Cond(nn.sub(dd.mul(T)), ">", ""), Cond(nn.add(dd.mul(T)), "<", "")]
+            r = smt.decide_relaxed(goals, conds, box, timeout_ms, label)
+            if r == "unsat":
+                return Outcome("held", how="relaxation")
     pos = ("and", [Cond(d, ">", ""), ("or", [Cond(n.sub(d.mul(T)), ">", ""), Cond(n.add(d.mul(T)), "<", "")])])
     neg = ("and", [Cond(d, "<", ""), ("or", [Cond(n.sub(d.mul(T)), "<", ""), Cond(n.add(d.mul(T)), ">", "")])])
     goal = ("or", [pos, neg, Cond(d, "==", "division by zero")])
